@@ -2,7 +2,7 @@
     Only statements live here; each is closed by [exact] of a lemma proved in coq/UDial. *)
 From Coq Require Import List ZArith Bool Permutation.
 From V Require Import Gen.Params Lib.Hex Wire.Varint USpec.Model USpec.Proofs USpec.ProofsWire
-  UDial.Model UDial.Proofs UDial.Witness.
+  UDial.Model UDial.Proofs UDial.Witness UDial.Retx UDial.ProofsRetx.
 Import ListNotations.
 Open Scope Z_scope.
 
@@ -49,7 +49,7 @@ Theorem C02_dial_k_fresh_keys : forall st ops1 scid o ops2 st' views,
 Proof. exact dial_k_fresh_keys. Qed.
 Print Assumptions C02_dial_k_fresh_keys.
 
-(** Suppress / shuffle applied to a list that already went through them (TransportParameterIDs()
+(** Suppress / shuffle applied to a list that already went through them (TransportParamIDs()
     before a dial, or a caller who passes a dialled list on) yields the same multiset -- the same
     list when nothing is shuffled -- and suppression alone changes nothing any more. *)
 Theorem C02_dial_idempotent_params : forall sup rnd js1 js2 ps,
@@ -99,3 +99,46 @@ Example C02_ex_history :
     map kData (wKeys w2) = oFresh ex_o2 /\ wHeld w2 = [true] /\ wSNI w2 = oName ex_o2.
 Proof. exact ex_history. Qed.
 Print Assumptions C02_ex_history.
+
+(** (b) Initial CRYPTO under loss (model UDial.Retx of retransmissionQueue + maybeGetCryptoPacket
+    + MarshalInitialPacketPayload). What one packing call takes out of the retransmission queue
+    is, byte for byte, what the queue loses (the ranges re-sent are the ranges lost) ... *)
+Theorem C02_initial_retx_resent_is_lost : forall popped q q',
+  pop_check q popped = Some q' -> forall b, covers b q <-> covers b popped \/ covers b q'.
+Proof. exact pop_check_covers. Qed.
+Print Assumptions C02_initial_retx_resent_is_lost.
+
+(** ... and for every history of losses, acknowledgements and packing calls that does not run
+    into the packer's error, every ClientHello byte the first flight carried is still
+    acknowledged, outstanding or queued. *)
+Theorem C02_initial_retx_complete : forall planned flight n ops st' rs,
+  (forall b, 0 <= b < n -> covers b (flat_map snd flight)) ->
+  rrun planned (RS flight [] []) ops = Some (st', rs) -> existsb is_err rs = false ->
+  forall b, 0 <= b < n -> covers b (all_ranges st').
+Proof. exact flight_stays_covered. Qed.
+Print Assumptions C02_initial_retx_complete.
+
+(** Packing a retransmission errs exactly when no flight builder planned the flight and the
+    ranges taken from the queue are not contiguous (clienthellod.ReassembleCRYPTOFrames) ... *)
+Theorem C02_initial_retx_error_iff : forall planned st probe before popped after r0 st' res,
+  rstep planned st (RPack probe before popped after r0) = Some (st', res) ->
+  (is_err res = true <-> planned = false /\ popped <> [] /\ contiguous popped = false).
+Proof. exact rstep_error_iff. Qed.
+Print Assumptions C02_initial_retx_error_iff.
+
+(** ... which refutes "packing a retransmission never returns an error": three Initial
+    datagrams of 300 CRYPTO bytes, the middle one acknowledged, the outer two lost together:
+    both ranges go into one packet, the packer fails, and byte 0 is accounted for nowhere. *)
+Theorem C02_initial_retx_never_errors_refuted :
+  (forall b, 0 <= b < 900 -> covers b (flat_map snd ex_flight)) /\
+  exists st', rrun false (RS ex_flight [] []) ex_ops = Some (st', [RNone; RNone; RNone; RErr 1]) /\
+              ~ covers 0 (all_ranges st').
+Proof. exact retx_error_reachable. Qed.
+Print Assumptions C02_initial_retx_never_errors_refuted.
+
+(** Non-vacuity of C02_initial_retx_complete: the same losses after a planned flight. *)
+Example C02_ex_retx_planned :
+  exists st', rrun true (RS ex_flight [] []) ex_ops = Some (st', [RNone; RNone; RNone; RPkt 0 [(0, 300); (600, 300)]]) /\
+              forall b, 0 <= b < 900 -> covers b (all_ranges st').
+Proof. exact retx_planned_ok. Qed.
+Print Assumptions C02_ex_retx_planned.
